@@ -87,12 +87,16 @@ Src genSrc(vf::Ctx& c, const World& w, const vector<int>& target, bool mostlyAcc
     double v = (t >= 0 && mostlyAcceptable && (forcedBad != -2 || !c.oneIn(5))) ? insideVal(c, w.objs[target[t]].cons) : anyVal(c);
     if (t >= 0 && static_cast<int>(s.e.size()) == forcedBad && w.objs[target[t]].cons >= 0) v = -1.5;   // rejected by every pool constraint except ]-inf;3]
     if (t >= 0 && c.oneIn(4)) v = w.objs[target[t]].v;       // same value: "nothing changed" entries
+    else if (t >= 0 && c.oneIn(6)) {                          // a value that differs from the current one by the smallest possible amount
+      double cur = w.objs[target[t]].v; int dir = c.flag() ? 1 : -1;
+      v = cur == 0 ? dir * c.pick({5e-324, 1e-300, 1e-21}) : vf::ulpStep(cur, dir);
+    }
     int cons = c.oneIn(3) ? static_cast<int>(c.below(NPOOL)) : -1; if (!acc(cons, v)) cons = -1;
     s.e.push_back({nm, v, cons}); s.pl.addParameter(Parameter(nm, v, mk(cons)));
   }
   return s;
 }
-string showSrc(const Src& s) { ostringstream o; o << "{"; for (auto& e : s.e) o << e.name << "=" << e.v << (e.cons >= 0 ? ":" + showC(e.cons) : "") << " "; o << "}"; return o.str(); }
+string showSrc(const Src& s) { ostringstream o; o << "{"; for (auto& e : s.e) o << e.name << "=" << vf::dec(e.v) << (e.cons >= 0 ? ":" + showC(e.cons) : "") << " "; o << "}"; return o.str(); }
 }  // namespace
 
 LAW(L1_list_history, RC, 30000, 1500000, 400, "a bulk update whose rejected entry is not the first targeted one, or a name collision, or a mutation after copy/share") {
@@ -267,6 +271,14 @@ LAW(L1_list_history, RC, 30000, 1500000, 400, "a bulk update whose rejected entr
           vector<string> nms; set<string> u; for (int id : ma) if (c.flag()) nms.push_back(w.objs[id].name);
           bool miss = c.oneIn(6); if (miss) { string n = NAMES[c.below(10)]; if (w.find(ma, n) < 0) nms.push_back(n); else miss = false; }
           for (size_t k = nms.size(); k > 1; --k) swap(nms[k - 1], nms[c.below(k)]);
+          if (!miss && !nms.empty() && c.oneIn(6)) {  // a repeated name: refused, or answered with a list whose names are still unique
+            nms.insert(nms.begin() + static_cast<long>(c.below(nms.size() + 1)), nms[c.below(nms.size())]);
+            c.desc << "createSubList(repeated name {"; for (auto& n : nms) c.desc << n << " "; c.desc << "})";
+            try { ParameterList r = la.createSubList(nms); vector<string> rn = r.getParameterNames(); set<string> u2(rn.begin(), rn.end());
+              CHECK(u2.size() == rn.size(), "createSubList with a repeated name returned a list that holds a name twice"); }
+            catch (ParameterException&) { c.desc << "!"; ntCollision = true; }
+            break;
+          }
           c.desc << "createSubList({"; for (auto& n : nms) c.desc << n << " "; c.desc << "})->L" << B;
           try { out.reset(new ParameterList(la.createSubList(nms))); CHECK(!miss, "createSubList accepted a missing name"); for (auto& n : nms) res.push_back(w.newObj(w.objs[ma[w.find(ma, n)]])); }
           catch (ParameterNotFoundException&) { CHECK(miss, "createSubList raised although every name is present"); c.desc << "!"; break; }
@@ -306,6 +318,13 @@ LAW(L1_list_history, RC, 30000, 1500000, 400, "a bulk update whose rejected entr
         CHECK(k == r.size(), "getCommonParametersWith returned " << r.size() << " entries, expected " << k);
         break; }
       case 27: {  // copy-construct / assign
+        if (c.oneIn(5)) {  // self-assignment (also through an alias of the same list): content and object identity must survive
+          ParameterList& alias = *w.L[A]; c.desc << "assignTo(itself)";
+          la = alias;
+          CHECK(la.size() == ma.size(), "self-assignment changed the size of the list from " << ma.size() << " to " << la.size());
+          w.M[A] = w.cloneList(ma);   // the entries may be re-cloned: they are new objects for the sharing check
+          sharedOrCopied = true; break;
+        }
         if (c.flag()) { c.desc << "copy->L" << B; w.L[B].reset(new ParameterList(la)); } else { c.desc << "assignTo(L" << B << ")"; *w.L[B] = la; }
         w.M[B] = w.cloneList(ma); sharedOrCopied = true;
         break; }
